@@ -170,6 +170,10 @@ class Construction:
       if n in self._data:
         raise gfapy.NotUniqueError(
           "Tag {} found multiple times".format(n))
+      elif self.__class__.FIELD_ALIAS and n in self.__class__.FIELD_ALIAS:
+        raise gfapy.NotUniqueError(
+          "Tag {} has the name of an alias ".format(n)+
+          "of the field {}".format(self.__class__.FIELD_ALIAS[n]))
       elif self._is_predefined_tag(n):
         self._validate_predefined_tag_type(n, t)
       else:
